@@ -53,13 +53,21 @@ def run_one(path, repo="/repo", build_check=True):
                 return m["name"], "invalid", "mutant does not compile: " + r.stderr[-300:]
         res = []
         ok = True
+        silent = m["name"].startswith("ok_")  # behaviour-preserving variant: the checks must stay quiet
         for prop in m["props"]:
             r = subprocess.run([os.path.join(ROOT, "bin", "astisubcheck"), "-prop", prop, "-repo", dst, "-verif", ROOT, "-noevidence"], env=ENV, capture_output=True, text=True)
             fired = r.returncode != 0 and ("VIOLATION property=" + prop) in r.stdout
             und = "UNDECIDED" in r.stdout
             first = next((l for l in r.stdout.splitlines() if l.startswith("FAIL") or l.startswith("UNDECIDED")), "")
+            if silent:
+                quiet = r.returncode == 0 and "VIOLATION" not in r.stdout
+                res.append(f"{prop}:{'quiet' if quiet else 'FALSE-ALARM'} {first[:200]}")
+                ok = ok and quiet
+                continue
             res.append(f"{prop}:{'detected' if fired else ('undecided' if und else 'missed')} {first[:160]}")
             ok = ok and fired
+        if silent:
+            return m["name"], "quiet" if ok else "missed", " | ".join(res)
         return m["name"], "detected" if ok else "missed", " | ".join(res)
     finally:
         shutil.rmtree(d, ignore_errors=True)
